@@ -181,7 +181,9 @@ PROPS["C02"] = {
                 "mithril-stm/src/proof_system/concatenation/signer.rs", "mithril-common/src/protocol/multi_signer.rs"],
     "rule": "world = real registration (1-8 parties), m in 3..24, phi_f in {0.05,0.2,0.65,1}; case = a (base list, k), an extension of "
             "it by repeated copies / invalid material / same-sigma index-subset copies / more honest signatures / an unregistered slot at "
-            "random positions, and a permutation of the extension; all non-trivial; distinct request lines",
+            "random positions, and a permutation of the extension; the same through mithril-common (entities::SingleSignature -> "
+            "protocol::MultiSigner::aggregate_single_signatures / verify_single_signature on certified fixtures, with relabelled, re-slotted, "
+            "index-subset and won_indexes-disagreeing copies); all non-trivial; distinct request lines",
     "trivial_tags": [],
     "trusted_base": ["rustc/cargo; harness bin c02; blst"],
     "assumptions": [],
